@@ -5,7 +5,7 @@
 # Writes /tmp/mut/<ID>/deliver/<variant>/confirm.txt ; exit 0 iff all confirmed.
 set -u
 ID=$1; V=$2
-WT=/tmp/mut/$ID; D=$WT/deliver/$V
+WT=${MUTROOT:-/tmp/mut}/$ID; D=$WT/deliver/$V
 export CARGO_NET_OFFLINE=true CARGO_TARGET_DIR=$WT/target
 unset RUSTFLAGS
 cd $WT || exit 2
